@@ -480,6 +480,12 @@ class Engine:
             it = self.registry.iter_view(self, st, container, node)
             if it is not None:
                 return self.contains(it, item, st, node)
+        if isinstance(container, (VScalar, VStr)) and (isinstance(container, VStr) or container.ty.kind == "atom") and \
+                (isinstance(item, VStr) or (isinstance(item, VScalar) and item.ty.kind == "atom")):
+            # substring test on two strings: an uninterpreted relation (nothing about string contents is assumed)
+            self.registry.note("`a in b` on strings is an uninterpreted relation str_contains(b, a)")
+            f = self.S.func("str_contains", self.S.Atom, self.S.Atom, z3.BoolSort())
+            return f(self.as_atom(container, st, node), self.as_atom(item, st, node))
         raise Unsupported("`in` on %s" % type(container).__name__, node)
 
     # ------------------------------------------------------------------ statements
@@ -921,6 +927,9 @@ class Engine:
             lt = getattr(self.current, "local_types", None) or {}
             if tgt.id in lt and isinstance(v, VPy) and isinstance(v.obj, tuple) and v.obj[:1] in (("emptyset",), ("dictlit",)):
                 v = self.coerce(v, lt[tgt.id], st, tgt)
+            elif tgt.id in lt and isinstance(v, VTuple) and not v.items and lt[tgt.id].kind == "list":
+                v = self.list_of(VTuple([], is_list=True), st, tgt)  # a declared, initially empty list that a loop appends to
+                v = VList(v.n, z3.K(z3.IntSort(), self.S.NONE) if lt[tgt.id].args[0].kind in ("atom", "oatom") else v.arr, lt[tgt.id])
             st.env[tgt.id] = v
             if isinstance(node, ast.Name) and isinstance(v, (VSet, VList, VDict)):
                 raise Unsupported("aliasing a mutable container (%s = %s)" % (tgt.id, node.id), tgt)
@@ -1088,6 +1097,17 @@ class Engine:
         for (s1, o) in self.ev(e.value, st):
             if isinstance(o, Raised):
                 out.append((s1, o))
+                continue
+            if isinstance(o, VOpt) and isinstance(o.val, VScalar) and o.val.ty.kind == "obj" and self.has_field(o.val.ty.name, e.attr):
+                # attribute of an Optional[object]: None has no such attribute
+                isn, notn = self.branch(s1, o.is_none, e)
+                if isn is not None:
+                    out.append((isn, Raised("AttributeError")))
+                if notn is not None:
+                    out.append((notn, self.read_field(notn, o.val, e.attr)))
+                continue
+            if isinstance(o, VNone):
+                out.append((s1, Raised("AttributeError")))
                 continue
             if isinstance(o, VScalar) and o.ty.kind == "obj":
                 if self.has_field(o.ty.name, e.attr):
@@ -1405,6 +1425,13 @@ class Engine:
                 return VPy(f(a.obj, b.obj))
         if isinstance(a, VStr) and isinstance(b, VStr) and isinstance(op, ast.Add):
             return VStr(a.s + b.s)
+        if isinstance(op, ast.Mult) and isinstance(a, VStr) and isinstance(b, VPy) and isinstance(b.obj, int):
+            return VStr(a.s * b.obj)
+        if isinstance(op, ast.Mult) and isinstance(a, VStr) and isinstance(b, VScalar) and b.ty.kind == "int":
+            # "text" * k: an uninterpreted function of the text and the count
+            r = self.S.func("str_repeat", self.S.Atom, z3.IntSort(), self.S.Atom)(self.S.str_const(a.s), b.z)
+            st.assume(r != self.S.NONE)
+            return VScalar(r, T.atom)
         if isinstance(op, ast.Add) and (isinstance(a, (VStr,)) or isinstance(b, (VStr,)) or (isinstance(a, VScalar) and a.ty.kind in ("atom", "oatom") and a.z.sort() == self.S.Atom)) \
                 and not isinstance(a, (VList, VTuple)) and not isinstance(b, (VList, VTuple)):
             return self.registry.strcat(self, st, a, b, node)
